@@ -158,6 +158,18 @@ CLAIMED = {
             'Trusted: own polynomial normal form, mc/ref.py, mc/holsem.py, kernel checker. Subtraction on naturals and division are '
             'outside the generated expressions.',
             'DESIGN.md §3 C10'),
+    'C06': ('exploration',
+            'bounded exhaustive enumeration of goals and solver sessions on the real z3/sympy steps, bounded-evaluation and independent-encoding oracles',
+            'Every goal Q1 v1. Q2 v2. (A op B) and its negation, with A, B from per-type atom pools (nat with truncated subtraction, int, '
+            'real with division, division by zero and non-normal literals, min/max/abs, function application and equality, if-then-else), '
+            'each variable free, universally or existentially bound, is given to z3wrapper.solve and the z3 macro. Every SymPy session '
+            '(one goal under no premise / an open and a closed interval in both orders, because the solver memoises) is given to the '
+            'sympy macro. Every accepted goal is judged: a falsifying valuation on a grid is definitive; otherwise an independent '
+            'encoding of the negation must not be satisfiable for both z3 and cvc5.',
+            'Trusted: mc/numeric.py exact evaluation, own sympy evaluator with HOL conventions (x / 0 = 0), z3 python API and cvc5 as '
+            'reference solvers. Harness bound: a z3 call that does not answer within 1.5 s counts as not accepted. Goals outside the '
+            'atom pools (sets, of_nat of variables, transcendental functions other than sin/sqrt) are not explored.',
+            'DESIGN.md §3 C06'),
 }
 
 PENDING_REASON = 'check not built yet in this round (planned, see DESIGN.md §3/§7); not claimed until its machinery exists'
